@@ -93,14 +93,16 @@ def bscHeaderValidate (h : Bsc) : Out Unit :=
     if h.diffZero then .err "difficulty" else .ok ()
   else .ok ()
 
-/-- bsc `ClientState.Validate`. FIX (C15-bsc-clientstate-validate): Epoch ≠ 0, ChainId ≤ MaxInt64. -/
+/-- bsc `ClientState.Validate`. FIX (C15-bsc-clientstate-validate): Epoch ≠ 0, ChainId ≤ MaxInt64; then (6c8eeb9)
+`Header.Height.IsZero()` ⇒ error (the model's heights have revision number 0). -/
 def bscValidate (c : Bsc) : Out Unit :=
   if c.epoch = 0 then .err "epoch-zero" else
   if c.chainId > maxI64 then .err "chain-id-overflow" else
+  if c.height = 0 then .err "height-zero" else
   bscHeaderValidate c
 
 /-- eth `Header.ValidateBasic`. FIX (C15-eth-bloom-length): len(Bloom) ≤ 256. -/
-def ethValidate (c : Eth) : Out Unit :=
+def ethHeaderValidate (c : Eth) : Out Unit :=
   if c.bloomLen > 256 then .err "bloom-length" else
   if c.gasLimit > maxI64 then .err "gas-limit" else
   if c.gasUsed > c.gasLimit then .err "gas-used" else
@@ -108,6 +110,10 @@ def ethValidate (c : Eth) : Out Unit :=
     if c.bloomLen > 256 then .panic "eth.BytesToBloom" else
     if c.diffZero then .err "difficulty" else .ok ()
   else .ok ()
+
+/-- eth `ClientState.Validate`: (6c8eeb9) `Header.Height.IsZero()` ⇒ error, then `Header.ValidateBasic`. -/
+def ethValidate (c : Eth) : Out Unit :=
+  if c.height = 0 then .err "height-zero" else ethHeaderValidate c
 
 /-- tendermint `ClientState.Validate`. -/
 def tmValidate (c : Tm) : Out Unit :=
@@ -140,7 +146,8 @@ def bscSeal (c : Bsc) (sig : SigRes) : Out Unit :=
   | .mismatch => .err "coinbase"
   | .good =>
     if c.extraLen < 97 then .panic "bsc.ParseValidators: extra[32:len-65]" else
-    if (c.extraLen - 97) % 20 ≠ 0 then .err "validator-bytes" else .ok ()
+    if (c.extraLen - 97) % 20 ≠ 0 then .err "validator-bytes" else
+    if (c.extraLen - 97) / 20 = 0 then .err "no-validators" else .ok ()   -- 24f4cfb
 
 /-- bsc `ClientState.Initialize`: checked type assertion on the consensus state (fix 67b55c5), then `Height % Epoch`. -/
 def bscInit (c : Bsc) (cons : CT) (sig : SigRes) : Out Unit :=
@@ -199,11 +206,12 @@ inductive AnyV (α : Type) | nil | wrong | val (a : α)
 
 structure XSt where
   clients : List (String × CS) := []
+  native : String := "teleport"      -- `GetChainName`: the chain's own name (genesis `NativeChainName`)
   deriving Repr
 
 def XSt.get (s : XSt) (chain : String) : Option CS := (s.clients.find? (·.1 = chain)).map (·.2)
 def XSt.set (s : XSt) (chain : String) (c : CS) : XSt :=
-  { clients := (chain, c) :: s.clients.filter (·.1 ≠ chain) }
+  { s with clients := (chain, c) :: s.clients.filter (·.1 ≠ chain) }
 
 /-- Create / Upgrade / Toggle client proposal. `absOk` = `govtypes.ValidateAbstract` ∧
 `host.ClientIdentifierValidator(ChainName)` (total functions of strings). -/
@@ -227,6 +235,7 @@ def unpack {α} : AnyV α → Out α
 
 /-- `handleCreateClientProposal` → `HandleCreateClient` → `Keeper.CreateClient`. -/
 def handleCreate (e : Env) (s : XSt) (p : ClientProp) : Out XSt :=
+  if p.chain = s.native then .err "own-chain-name" else     -- 3b1567f
   match s.get p.chain with
   | some _ => .err "client-exists"
   | none => do
@@ -621,17 +630,23 @@ structure GenPair where
   denoms : List (String × Bool)     -- (denom, sdk.ValidateDenom ok — informative; the model evaluates the regexp itself)
   deriving Repr
 
+/-- the inner loop of `GenesisState.Validate` over the denominations of one pair (ccb0d33: EVERY denomination is checked). -/
+def aDupScan : List String → List String → Option (List String)
+  | [], seen => some seen
+  | d :: rest, seen => if seen.contains d then none else aDupScan rest (d :: seen)
+
+/-- aggregate `GenesisState.Validate` as of ccb0d33: an empty `Denoms` list is an ERROR (it used to be an index panic),
+`TokenPair.Validate` (denominations, then address), contracts compared as addresses, every denomination checked for duplicates. -/
 def aValidateLoop : List GenPair → List String → List String → Out Unit
   | [], _, _ => .ok ()
   | b :: rest, seenE, seenD =>
+    if b.denoms.isEmpty then .err "no-denoms" else
+    if b.denoms.any (fun d => !Vesting.validDenom d.1) then .err "denom" else
+    if !b.addrOk then .err "address" else
     if seenE.contains b.erc20 then .err "dup-erc20" else
-    match b.denoms with
-    | [] => .panic "aggregate.GenesisState.Validate: Denoms[0]"
-    | (d0, _) :: _ =>
-      if seenD.contains d0 then .err "dup-denom" else
-      if b.denoms.any (fun d => !Vesting.validDenom d.1) then .err "denom" else
-      if !b.addrOk then .err "address" else
-      aValidateLoop rest (b.erc20 :: seenE) (d0 :: seenD)
+    match aDupScan (b.denoms.map (·.1)) seenD with
+    | none => .err "dup-denom"
+    | some seenD' => aValidateLoop rest (b.erc20 :: seenE) seenD'
 
 /-- aggregate `GenesisState.Validate` (`Params.Validate` is `nil`). -/
 def aValidateGenesis (g : List GenPair) : Out Unit := aValidateLoop g [] []
